@@ -13,6 +13,8 @@ class U:
     def __init__(self, typ, stem):
         self.typ, self.stem = typ, stem
         self.keys = []          # (key, value) of own section
+        self.late = []          # naming assignments (written after everything else; end to end they may sit in a drop-in file)
+        self.use_dropin = False
         self.service_name = None
         self.refs = []          # (kind, target file name, extra)
 
@@ -20,16 +22,34 @@ class U:
     def fname(self):
         return "%s.%s" % (self.stem, self.typ)
 
-    def text(self):
+    def text(self, split=False):
+        """the unit as one file; with split=True the main file only (the naming assignments go to dropin_text())"""
         base = {"container": [], "volume": [], "network": [], "image": [("Image", "quay.io/img/%s" % self.stem)], "build": [("File", "/Containerfile")],
                 "pod": [], "kube": [("Yaml", "/y.yml")]}[self.typ]
-        ks = base + self.keys
-        if self.service_name:
-            ks.append(("ServiceName", self.service_name))
+        ks = base + self.keys + ([] if split else self.named())
         return "[%s]\n%s" % (SECTION[self.typ], "".join("%s=%s\n" % kv for kv in ks))
 
+    def named(self):
+        return self.late + ([("ServiceName", self.service_name)] if self.service_name else [])
+
+    def dropin_text(self):
+        return "[%s]\n%s" % (SECTION[self.typ], "".join("%s=%s\n" % kv for kv in self.named()))
+
+    def tree(self, prefix):
+        """files of this unit below prefix, the naming assignments in a drop-in when use_dropin"""
+        if self.use_dropin and self.named():
+            return {prefix + self.fname: self.text(split=True), prefix + self.fname + ".d/50-names.conf": self.dropin_text()}
+        return {prefix + self.fname: self.text()}
+
+    def effective(self, key):
+        """values assigned to key after the last empty assignment (C15), over the main keys and the naming assignments"""
+        vs = [v for k, v in self.keys + self.late if k == key]
+        while "" in vs:
+            vs = vs[vs.index("") + 1:]
+        return vs
+
     def get(self, key):
-        vs = [v for k, v in self.keys if k == key]
+        vs = self.effective(key)
         return vs[-1] if vs else None
 
     # independent reading of the property
@@ -44,10 +64,22 @@ class U:
         if self.typ == "image":
             return self.get("ImageTag") or "quay.io/img/%s" % self.stem
         if self.typ == "build":
-            return self.get("ImageTag")
+            vs = self.effective("ImageTag")         # several tags: the image is known by the first
+            return vs[0] if vs else None
         if self.typ == "container":
             return self.get("ContainerName") or "systemd-" + (self.service_name or self.stem)
         return None
+
+
+def name_it(rng, u, key, value):
+    """an explicit object name, in a third of the cases as the end of a history: a stale name, the empty reset, then the name
+    (for ImageTag of a .build also a second tag after it)"""
+    if rng.random() < 0.33:
+        u.late += [(key, "stale-" + value.replace("/", "-")), (key, "")]
+    u.late.append((key, value))
+    if key == "ImageTag" and u.typ == "build" and rng.random() < 0.3:
+        u.late.append((key, value + "-second"))
+    u.use_dropin = rng.random() < 0.4
 
 
 def gen_set(rng):
@@ -58,15 +90,16 @@ def gen_set(rng):
             if rng.random() < 0.7:
                 u = U(typ, stem)
                 if typ == "volume" and rng.random() < 0.5:
-                    u.keys.append(("VolumeName", "vol-" + stem))
+                    name_it(rng, u, "VolumeName", "vol-" + stem)
                 if typ == "network" and rng.random() < 0.5:
-                    u.keys.append(("NetworkName", "nw-" + stem))
+                    name_it(rng, u, "NetworkName", "nw-" + stem)
                 if typ == "image" and rng.random() < 0.5:
-                    u.keys.append(("ImageTag", "localhost/tag-" + stem))
+                    name_it(rng, u, "ImageTag", "localhost/tag-" + stem)
                 if typ == "build":
-                    u.keys.append(("ImageTag", "localhost/built-" + stem))
+                    name_it(rng, u, "ImageTag", "localhost/built-" + stem)
                 if rng.random() < 0.3:
                     u.service_name = "svc-" + stem
+                    u.use_dropin = u.use_dropin or rng.random() < 0.4
                 units.append(u)
     present = {u.fname: u for u in units}
     def target(typ):
@@ -79,9 +112,10 @@ def gen_set(rng):
         if rng.random() < 0.8:
             c = U("container", stem)
             if rng.random() < 0.3:
-                c.keys.append(("ContainerName", "ctr-" + stem))
+                name_it(rng, c, "ContainerName", "ctr-" + stem)
             if rng.random() < 0.3:
                 c.service_name = "csvc-" + stem
+                c.use_dropin = c.use_dropin or rng.random() < 0.4
             img = target(rng.choice(["image", "build"])) if rng.random() < 0.5 else "plain/img"
             c.keys.append(("Image", img))
             if img.endswith((".image", ".build")):
@@ -206,7 +240,11 @@ def run(ctx):
     with e2e.Box() as box:
         for i, s in enumerate(sample):
             root = box.path(str(i))
-            e2e.make_tree(root, {"u/" + u.fname: u.text() for u in s})
+            files = {}
+            for u in s:
+                files.update(u.tree("u/"))
+            ctx.count("e2e_units_named_in_dropin", sum(1 for u in s if u.use_dropin and u.named()))
+            e2e.make_tree(root, files)
             rc, out, err = e2e.run_quadlet([os.path.join(root, "u")], os.path.join(root, "out"), dry_run=True)
             svcs = e2e.parse_dry_run(out)
             recs = []
@@ -223,6 +261,9 @@ def run(ctx):
                     recs.append({"path": ("/d/" + u.fname).encode(), "ok": True, "sections": secs})
                 else:
                     msg = " ".join(l for l in errt.split("\n") if u.fname in l)
+                    other = [os.path.basename(k) for k, v in svcs.items() if ("SourcePath=" + os.path.join(root, "u", u.fname) + "\n") in v]
+                    if other:
+                        msg = "generated as %s, expected %s (its ServiceName=%s%s); " % (other, u.service_file(), u.service_name, " is set in a drop-in" if u.use_dropin else "") + msg
                     recs.append({"path": ("/d/" + u.fname).encode(), "ok": False, "err": "?", "msg": msg})
             ctx.evaluations += 1
             ctx.count("e2e_sets")
